@@ -16,15 +16,15 @@ CLAIMED = {
             "against RFC-transcribed specs over their whole domains (Kani: H1 H2 H3 H5 H6 H7 S1 S2 F1 F2c HU2), and unbounded Verus proofs on verbatim bodies "
             "for the loop-carrying stages (BRR1 bit reader, F3 table description reader, Q1/Q2 table selection and sequence decoding, L1 literals, Q3 sequence "
             "execution = RFC interleaving of literal runs and overlapping match copies with the repeat-offset machine, D0 match copy, B2 block slicing). "
-            "The composition of the stages into 'decode(frame) == original' is argued in DESIGN.md, not machine-checked; FSE table construction for "
-            "data-dependent distributions (F2) and Huffman table construction beyond the bound (HU1) are assumptions listed in the evidence.", "DESIGN.md 4 C01, Part II"),
+            "FSE table construction (F2) and Huffman table construction (HU1V/HU2V) are proved in Verus for all inputs. "
+            "The composition of the stages into 'decode(frame) == original' is argued in DESIGN.md, not machine-checked.", "DESIGN.md 4 C01, Part II"),
     "C02": ("proof", "Inverse pairs as two-contract lemmas on the real encoder/decoder functions (S1 value<->code, H1' block header, H6' sequence count, H7' modes byte, "
             "E3 frame header, E8 literals-header widths), block decision logic (E4) and frame structure incl. reuse and read fragmentation (E5, bounded sizes), "
             "matcher truthfulness (E7, bounded). Whole-pipeline 'decode(compress(x)) == x' is not claimed; libzstd is not consulted.", "DESIGN.md 4 C02"),
     "C03": ("proof", "Every panic site on the decode path is a proof obligation: Verus (verbatim bodies, all input sizes) proves absence of index, overflow, shift, "
             "slice and explicit panics plus termination for BRR1, F3, Q1/Q2, Q3, L1, B2, D0, R1; Kani proves the parsers total over their whole input domains "
             "(H1 H2 H5 H6) and the raw-pointer ring buffer memory-safe from arbitrary invariant states at fixed capacities (R2 R3 R4). Callee preconditions are "
-            "discharged at call sites by construction (contract stubs / external_body). Unverified remainder listed in evidence (F2, HU1 beyond bound, dictionary parser).", "DESIGN.md 4 C03"),
+            "discharged at call sites by construction (contract stubs / external_body). FSE / Huffman table construction: F2, HU1V, HU2V (Verus, all inputs). Unverified remainder listed in evidence (dictionary parser, streaming front end).", "DESIGN.md 4 C03"),
     "C04": ("proof", "Four layers on the real code: R1 (Verus, verbatim bodies, ALL capacities) position arithmetic and drop-front queue semantics; "
                      "R2 (Kani, real raw pointers, one step from an ARBITRARY invariant state, hence all operation histories) queue semantics, "
                      "invariant and in-allocation accesses for every operation at fixed capacities; R3/R4 (Kani) the over-copying primitive stays "
@@ -59,7 +59,10 @@ CLAIMED = {
     "C12": ("proof", "F1 (Kani, complete for accuracy logs 5..=9): baseline/bit-count arithmetic equals RFC 4.1.1, states tile the table; F2c (Kani): the three predefined "
             "tables built by the real code equal RFC Appendix A cell by cell; F3 (Verus, unbounded): description reader - range, sum == 2^al, termination; "
             "Q2 (Verus): stepping stays inside a well-formed table, all bits consumed; F6 (Kani, bounded): encoder normalisation yields a valid distribution. "
-            "F2 (table construction for arbitrary distributions) and F5 (encoder tables == decoder tables) are NOT proved and are listed as assumptions.", "DESIGN.md 4 C12, Part II 9"),
+            "F2 (Verus, unbounded, verbatim body of build_decoding_table / build_decoder / build_from_probabilities): for EVERY distribution with cell sum 2^al, al in 5..=9, "
+            "the spread walk terminates and is a bijection (explicit modular inverse of the step), every cell's symbol is the one the RFC spread defines, the less-than-one "
+            "symbols sit at the top in order, and every state's (baseline, bits) is calc_baseline_and_numbits at its rank (== RFC by F1). "
+            "F5 (encoder tables == decoder tables for arbitrary histograms) is NOT proved and is listed as an assumption.", "DESIGN.md 4 C12, Part II 9"),
     "C13": ("proof", "Decoder side complete and unbounded in Verus on verbatim bodies: HU2V (read_weights: direct and FSE-compressed descriptions, no panic, termination, "
             "bytes used <= source, direct weights = nibbles), HU1V (build_table_from_weights for EVERY weight vector: Kraft assert, rejection of weights > 11 and "
             "of tables deeper than 11 bits, table well-formed: 2^max_bits cells each with 1..=max_bits bits), L1 (stepping stays inside the table, every literal "
